@@ -96,7 +96,7 @@ if wf:
 ab, lm = exprparse.abstract_leaves(expr, c18.render, c18.render)
 try:
     parsed = latexparse.parse(text, lm)
-except latexparse.AdjacentNumerals as e:
+except latexparse.Unreadable as e:
     print("REPRODUCED:", text, e); sys.exit(1)
 except exprparse.ParseError as e:
     print("unreadable", e); sys.exit(0)
